@@ -28,6 +28,8 @@ SENDS = {
 
 
 def run(W, chk):
+    from rules.common import borrow
+    borrow(W, chk, "C06", {"PROV-budget-guard"}, "claims never take more than the farm's budget out of custody")
     paths, _ = W.variant_paths(FM, "execute")
     entries = [("execute", vp) for vp in paths] + [("reply", None), ("instantiate", None), ("migrate", None)]
     for which, vp in entries:
